@@ -13,9 +13,10 @@ cp _seed/demo.py "$out/demo.py" 2>/dev/null
 cp _seed/meta.json "$out/agent_meta.json" 2>/dev/null
 tests=$(PYTHONPATH=$wt/lib /venv/bin/python -m pytest -q -p no:cacheprovider --continue-on-collection-errors lib/carbon/tests 2>&1 | tail -1)
 PYTHONPATH=$wt/lib timeout 300 /venv/bin/python _seed/demo.py >/tmp/seed-demo-with.txt 2>&1; with=$?
-git stash -q
+# (no git stash: the stash is shared by all worktrees of a repository)
+git apply -R "$out/patch.diff"
 PYTHONPATH=$wt/lib timeout 300 /venv/bin/python _seed/demo.py >/tmp/seed-demo-without.txt 2>&1; without=$?
-git stash pop -q
+git apply "$out/patch.diff"
 echo "tests: $tests"
 echo "demo with change: exit $with ($(tail -1 /tmp/seed-demo-with.txt | cut -c1-120)); without: exit $without"
 cd /verif
